@@ -64,6 +64,10 @@ type answer struct {
 	Version int64
 	Age     *int64
 	R304    bool
+	// wire-level variations the freshness decision must not depend on
+	HasDate  bool
+	DateSkew time.Duration // Date header = now - DateSkew
+	Chunked  bool          // body sent without Content-Length
 }
 
 type origin struct {
@@ -104,8 +108,16 @@ func (o *origin) ServeHTTP(w http.ResponseWriter, r *http.Request) {
 	if a.Age != nil {
 		h.Set("Age", strconv.FormatInt(*a.Age, 10))
 	}
+	if a.HasDate {
+		h.Set("Date", time.Now().Add(-a.DateSkew).UTC().Format(http.TimeFormat))
+	}
 	w.WriteHeader(status)
 	if r.Method != http.MethodHead {
+		if a.Chunked {
+			if f, ok := w.(http.Flusher); ok {
+				f.Flush() // headers leave without Content-Length: the body is chunked
+			}
+		}
 		fmt.Fprintf(w, "v%d", a.Version)
 	}
 }
@@ -276,8 +288,56 @@ var simpleCC = []string{"max-age=5", "max-age=60", "max-age=60", "max-age=3600",
 
 var numRe = regexp.MustCompile(`[0-9]+`)
 
+var dateSkews = []time.Duration{time.Hour, 26 * time.Hour, 10 * time.Second, -time.Hour, 400 * 24 * time.Hour}
+
+// profiles: 0 general; 1 unusable lifetime information (the stored expiry is the parser's "already expired" value);
+// 2 lifetime from an Expires date while the origin's Date header lags or leads
+func randAnswerProfile(r *emit.Rand, version int64, now time.Time, profile int) answer {
+	a := randAnswer(r, version, now)
+	switch profile {
+	case 1:
+		a.Status = 200
+		a.HV.CC = nil
+		if r.Chance(50) {
+			a.HV.CC = []string{emit.Pick(r, []string{"max-age=abc", "public", "max-age=", "must-revalidate"})}
+		}
+		a.HV.Exp = freshlib.Expires{Kind: freshlib.ExpUnparseable, Line: emit.Pick(r, freshlib.BadDates), Form: "bad"}
+		a.HV = freshlib.WireSafe(a.HV)
+	case 2:
+		a.Status = 200
+		a.HV.CC = nil
+		if r.Chance(30) {
+			a.HV.CC = []string{"public"}
+		}
+		off := emit.Pick(r, []time.Duration{20 * time.Second, 2 * time.Minute, 30 * time.Minute, 3 * time.Hour})
+		at := now.Add(off).Truncate(time.Second).Add(time.Second)
+		a.HV.Exp = freshlib.Expires{Kind: freshlib.ExpAt, Line: freshlib.DateLine(at, "imf"), At: at, Form: "imf", Offset: off}
+		a.HV = freshlib.WireSafe(a.HV)
+		a.HasDate, a.DateSkew = true, emit.Pick(r, dateSkews)
+	}
+	a.alignAge()
+	return a
+}
+
+// alignAge: the proxy derives the Age it reports from the origin's Date header (apparent age = store time - Date,
+// RFC 9111 4.2.3) and takes the larger of that and the origin's Age field. The model knows no Date header (it takes
+// the fetch instant), so an answer whose Date lags by s seconds also carries Age: s (or a larger one): both routes
+// then give the same corrected age, and the freshness DECISION — which must not look at Date — is what is compared.
+func (a *answer) alignAge() {
+	if a.HasDate && a.DateSkew > 0 {
+		s := int64(a.DateSkew / time.Second)
+		if a.Age == nil || *a.Age < s {
+			a.Age = &s
+		}
+	}
+}
+
 func randAnswer(r *emit.Rand, version int64, now time.Time) answer {
 	a := answer{Status: 200, Version: version, R304: r.Chance(50)}
+	if r.Chance(12) {
+		a.HasDate, a.DateSkew = true, emit.Pick(r, dateSkews)
+	}
+	a.Chunked = r.Chance(15)
 	if r.Chance(14) {
 		a.Status = emit.Pick(r, []int{201, 203, 404, 410, 500, 503})
 	}
@@ -299,6 +359,7 @@ func randAnswer(r *emit.Rand, version int64, now time.Time) answer {
 		v := int64(emit.Pick(r, []int{0, 3, 100, 100000}))
 		a.Age = &v
 	}
+	a.alignAge()
 	return a
 }
 
@@ -338,6 +399,16 @@ type histStats struct{ requests, advances, switches int }
 func playHistory(e *env, r *emit.Rand, path string, nsteps int, meta *emit.Meta) (string, map[string]any, histStats) {
 	var st histStats
 	pol := e2ePolicy(r)
+	profile := 0
+	switch r.Intn(12) {
+	case 0:
+		profile = 1
+		pol.Ignore, pol.Force = true, false
+	case 1:
+		profile = 2
+		pol.Ignore, pol.Force = false, false
+	}
+	meta.Count("history_profile", strconv.Itoa(profile))
 	pol0 := pol
 	e.setPolicy(pol)
 	// every history has its own resource, so its virtual clock can start at the real time again
@@ -362,7 +433,7 @@ func playHistory(e *env, r *emit.Rand, path string, nsteps int, meta *emit.Meta)
 			st.advances++
 			readable = append(readable, map[string]any{"advance": d.String()})
 			meta.Count("gap", d.Round(time.Second).String())
-		case i > 0 && k < 30: // policy switch
+		case i > 0 && k < 30 && profile == 0: // policy switch
 			pol = e2ePolicy(r)
 			e.setPolicy(pol)
 			st.switches++
@@ -376,7 +447,7 @@ func playHistory(e *env, r *emit.Rand, path string, nsteps int, meta *emit.Meta)
 			if r.Chance(12) {
 				mi = r.Intn(len(methods))
 			}
-			a := randAnswer(r, version, time.Now())
+			a := randAnswerProfile(r, version, time.Now(), profile)
 			e.orig.set(path, a)
 			now := e.vnow()
 			dg.addAnswer(now, a, pol, e.shift)
@@ -399,6 +470,10 @@ func playHistory(e *env, r *emit.Rand, path string, nsteps int, meta *emit.Meta)
 			rd["origin_status"] = a.Status
 			rd["origin_version"] = a.Version
 			rd["origin_304_on_conditional"] = a.R304
+			if a.HasDate {
+				rd["origin_date_skew"] = a.DateSkew.String()
+			}
+			rd["origin_chunked"] = a.Chunked
 			rd["seen"] = map[string]any{"status": o.status, "version": o.version, "x_cache": o.xcache, "cache_status": o.cs, "age": o.age, "origin_log": o.origin, "error": o.err}
 			readable = append(readable, rd)
 			st.requests++
